@@ -1466,6 +1466,7 @@ def check_rerun(ctx, plans, rng):
     tmp = tempfile.mkdtemp(prefix="c18r-", dir="/var/tmp")
     rounds = ctx.pick(1, 4)
     lines, meta = [], []
+    dump_lines, dump_meta = [], []
     try:
         jobs = []
         for plan in plans:
@@ -1477,7 +1478,10 @@ def check_rerun(ctx, plans, rng):
                 argv_extra, varied = [], []
                 cand = [o for o in plan.visible if not o.positional and o.name not in plan.base and o.kind.name not in (UNMODELLED, "dict")
                         and not (XOR.get(plan.path) and o.name in XOR[plan.path][:2])]
-                for o in rng.sample(cand, min(len(cand), rng.randrange(0, 5))):
+                # first round: every container / enum / special-int option of the command (lists of services and sessions of the
+                # vecu's randomness parameters, DDDI sources, ranges, ...) is given; later rounds: a random handful
+                special = [o for o in cand if o.kind.name in LIST_KINDS + ("enum", "hexInt", "hexBytes", "autoInt")]
+                for o in (special if r == 0 else rng.sample(cand, min(len(cand), rng.randrange(0, 5)))):
                     v = V.valid(o.kind, "cli", rng, plan.hi, plan.uri_pool)
                     if v is None or (_dashed(v[1]) and o.kind.name in LIST_KINDS):
                         continue
@@ -1540,6 +1544,20 @@ def check_rerun(ctx, plans, rng):
                 toks += [L.thex(name), k.lean(None, False), L.canon_val_kind(getattr(cfg, name), k)]
             lines.append("rs " + " ".join(toks))
             meta.append((plan, case))
+            # ... and field by field: the model's dump is what the file / the database hold
+            sj = got["stored_db"][1] if isinstance(got["stored_db"][1], dict) else {}
+            for name in type(cfg).model_fields:
+                k = kinds[name]
+                if k.name != UNMODELLED and name in sj:
+                    dump_lines.append(f"rt {k.lean(None, False)} {L.canon_val_kind(getattr(cfg, name), k)}")
+                    dump_meta.append((plan, name, k, L.canon_json(sj[name], k), L.canon_val_kind(getattr(cfg, name), k), case))
+        for (plan, name, k, stored, val, case), mo in zip(dump_meta, ctx.lean(dump_lines)):
+            j, status, *rest = mo.split()
+            ctx.ev()
+            ctx.kind(f"stored:{k.label()}")
+            if j != stored or status != "ok" or rest[0] != val:
+                ctx.disagree(f"dump-load-model:{k.label()}", f"{' '.join(plan.path)}:{name}: run_meta holds {stored} for the value {val}; the model's dump {j} / load {status} {rest}",
+                             dict(case, field=name), impl=[stored, val], model=mo, spec_violated=False, site="command/config.py serialisers")
         for (plan, case), mo in zip(meta, ctx.lean(lines)):
             ctx.ev()
             if mo != "ok":
